@@ -66,6 +66,8 @@ type Model struct {
 	// overBudget: some vertex was (or may have been) dropped because the orphan buffer was full or its
 	// retries were used up; the admission guarantee of C13 is only demanded inside that budget
 	overBudget bool
+	synced     string // C14: "<variant>=<result>" once a sync event ran (terminal)
+	syncSrc    int
 }
 
 // New creates the model.
@@ -96,6 +98,7 @@ func (m *Model) Init() {
 	m.crafted = map[string]bool{}
 	m.truncated = map[int]int{}
 	m.overBudget = false
+	m.synced = ""
 	m.pre = nil
 	for _, lists := range [][]TxSpec{m.Cfg.Menu, m.Cfg.Crafted, m.Cfg.TrustedCraf, m.Cfg.Hidden} {
 		for _, s := range lists {
@@ -145,6 +148,16 @@ func ev(kind string, a ...any) string {
 // Enabled lists the events enabled in the current state.
 func (m *Model) Enabled() []string {
 	var out []string
+	if m.synced != "" {
+		return nil
+	}
+	if m.Cfg.Sync && m.spare != nil {
+		for i := range m.nodes {
+			for _, variant := range SyncVariants {
+				out = append(out, ev("S", i, variant))
+			}
+		}
+	}
 	for _, s := range m.Cfg.Menu {
 		if len(m.proposed[s.Label]) >= m.Cfg.MaxProposeNodes {
 			continue
@@ -270,6 +283,12 @@ func (m *Model) Apply(e string) string {
 		m.truncated[i]++
 		err := m.nodes[i].Book.VerifTruncate(ctx)
 		return world.ErrClass(err)
+	case "S":
+		i, _ := strconv.Atoi(p[1])
+		res := m.sync(i, p[2])
+		m.synced = p[2] + "=" + res
+		m.syncSrc = i
+		return res
 	case "K":
 		i, _ := strconv.Atoi(p[1])
 		m.noteBudget(i)
@@ -453,7 +472,7 @@ func (m *Model) fullKey(vs []view) string {
 		tr = append(tr, fmt.Sprintf("%d:%d", i, n))
 	}
 	sort.Strings(tr)
-	return strings.Join(parts, " ") + " PROD[" + strings.Join(prod, " ") + "] PROP[" + strings.Join(prop, " ") + "] CR[" + strings.Join(cr, " ") + "] TR[" + strings.Join(tr, " ") + "]" + fmt.Sprintf(" OB=%v", m.overBudget)
+	return strings.Join(parts, " ") + " PROD[" + strings.Join(prod, " ") + "] PROP[" + strings.Join(prop, " ") + "] CR[" + strings.Join(cr, " ") + "] TR[" + strings.Join(tr, " ") + "]" + fmt.Sprintf(" OB=%v SYNC=%s", m.overBudget, m.synced)
 }
 
 // Key returns the canonical key (hashed) of the whole world.
